@@ -439,6 +439,24 @@ func heapSortEnum(rep *core.Report) {
 				if msg := drainCheck(h, t.cmp, cur); msg != "" {
 					rep.Add("Heap.FromSlice/"+drainCls(msg), fmt.Sprintf("FromSlice(%v,%s): %s", cur, t.name, msg), fmt.Sprintf("FromSlice(%v,%s)", cur, t.name), nil)
 				}
+				// the same on a slice with spare capacity (an append-grown slice, a prefix of a buffer)
+				for _, spare := range []int{1, 5} {
+					in3 := make([]hE, len(cur), len(cur)+spare)
+					copy(in3, cur)
+					out := heap.Sort(in3, t.cmp)
+					bad := msKey(out) != msKey(cur)
+					for i := 1; i < len(out) && !bad; i++ {
+						bad = t.cmp(out[i-1], out[i])
+					}
+					if bad {
+						rep.Add("Heap.Sort/wrong-on-slice-with-spare-capacity", fmt.Sprintf("Sort(%v with cap len+%d,%s) = %v", cur, spare, t.name, out), fmt.Sprintf("Sort(%v,%s) spare capacity %d", cur, t.name, spare), nil)
+					}
+					in4 := make([]hE, len(cur), len(cur)+spare)
+					copy(in4, cur)
+					if msg := drainCheck(heap.FromSlice(in4, t.cmp), t.cmp, cur); msg != "" {
+						rep.Add("Heap.FromSlice/"+drainCls(msg)+"/spare-capacity", fmt.Sprintf("FromSlice(%v with cap len+%d,%s): %s", cur, spare, t.name, msg), fmt.Sprintf("FromSlice(%v,%s) spare capacity %d", cur, t.name, spare), nil)
+					}
+				}
 			}()
 			if len(cur) >= 2 {
 				rep.Nontrivial(t.name + fmt.Sprint(cur))
